@@ -9,6 +9,7 @@ namespace PdModel.Tso
 structure CfgOk (c : Cfg) : Prop where
   guard_ms : 1000000 ≤ c.guard
   save_gt  : c.guard < c.saveInterval
+  sfx_lt   : c.suffix < 2 ^ c.bits
 
 /-- per-member part of the invariant -/
 structure MemInv (s : St) (m : Nat) : Prop where
@@ -31,7 +32,7 @@ structure MemInv (s : St) (m : Nat) : Prop where
 /-- facts about the ghost log of grants -/
 structure GrantsInv (s : St) : Prop where
   f : ∀ g ∈ s.grants, ∃ S, s.stored = some S ∧ g.ns + s.cfg.guard < S
-  g : ∀ g ∈ s.grants, g.lo < g.hi ∧ g.hi < s.cfg.maxLogical ∧ g.ms = msOf g.ns ∧
+  g : ∀ g ∈ s.grants, g.lo < g.hi ∧ g.hi * 2 ^ s.cfg.bits + s.cfg.suffix < s.cfg.maxLogical ∧ g.ms = msOf g.ns ∧
         ∃ B, g.bound = some B ∧ g.ns + s.cfg.guard < B
   o : s.grants.Pairwise (fun newer older => older.ms < newer.ms ∨ (older.ms = newer.ms ∧ older.hi ≤ newer.lo))
 
